@@ -61,6 +61,7 @@ theorem smallJacFwd_form :
 end tables
 
 namespace C10
+open Rod
 
 noncomputable instance : PW.Sqrt ℝ := ⟨Real.sqrt⟩
 noncomputable instance : PW.Trig ℝ := ⟨Real.sin, Real.cos, Real.arccos⟩
@@ -207,39 +208,269 @@ theorem clip0_nonneg (u : ℝ) (h : 0 ≤ u) : clip0 u = u := by
   unfold clip0
   rw [if_neg (not_lt.mpr h)]
 
-/-- the sign fix-ups of the half-turn branch, as a statement about three reals (all 27 sign patterns) -/
-theorem sign_fix (x y z : ℝ) :
-    let ry := if 2 * (y * x) < 0 then -|y| else |y|
-    let rz := if 2 * (z * x) < 0 then -|z| else |z|
-    let rz' := if |x| < |ry| ∧ |x| < |rz| ∧ (decide (0 < 2 * (z * y)) != decide (0 < ry * rz)) then -rz else rz
-    (|x| = x ∧ ry = y ∧ rz' = z) ∨ (|x| = -x ∧ ry = -y ∧ rz' = -z) := by
-  intro ry rz rz'
-  rcases lt_trichotomy x 0 with hx | hx | hx <;> rcases lt_trichotomy y 0 with hy | hy | hy <;>
-  rcases lt_trichotomy z 0 with hz | hz | hz <;>
-  simp [ry, rz, rz', *, abs_of_neg, abs_of_pos, mul_pos_iff, mul_neg_iff, lt_asymm]
+open Rod in
+theorem clip0_ge (u : ℝ) : 0 ≤ clip0 u := by
+  unfold clip0
+  split_ifs with h
+  · exact le_rfl
+  · exact not_lt.mp h
 
-/-- on a matrix with the diagonal and upper triangle of `2kkᵀ − I` the recovered axis is `k` or `−k` -/
+/-- the left-hand sides of the three sign tests: twice the symmetric part -/
+theorem signTestVal_forms (p : M3 ℝ) :
+    signTestVal p 0 = p.r0.y + p.r1.x ∧ signTestVal p 1 = p.r0.z + p.r2.x ∧ signTestVal p 2 = p.r1.z + p.r2.y :=
+  ⟨rfl, rfl, rfl⟩
+
+theorem bne_decide_iff (P Q : Prop) [Decidable P] [Decidable Q] : (decide P != decide Q) = true ↔ ¬ (P ↔ Q) := by
+  by_cases hP : P <;> by_cases hQ : Q <;> simp [hP, hQ]
+
+/-- the sign fix-ups of the half-turn branch, as a statement about reals: the sign tests see `A·xy`, `A·xz`, `A·yz`
+    (`A > 0`; twice the symmetric part of `rot((x,y,z), θ)`), the magnitudes `mx, my, mz` are ordered like `|x|, |y|, |z|`
+    and positive where the component is non-zero.  Then the signed result has the sign pattern of `(x,y,z)` or of
+    `−(x,y,z)`, weakly (nothing is said about a component whose axis component is zero). -/
+theorem sign_fix_gen (x y z A mx my mz : ℝ) (hA : 0 < A) (hmx : 0 ≤ mx) (hmy : 0 ≤ my) (hmz : 0 ≤ mz)
+    (hy : y ≠ 0 → 0 < my) (hz : z ≠ 0 → 0 < mz) (hxy : mx < my ↔ x * x < y * y) (hxz : mx < mz ↔ x * x < z * z) :
+    let ry := if A * (x * y) < 0 then -my else my
+    let rz := if A * (x * z) < 0 then -mz else mz
+    let rz' := if |mx| < |ry| ∧ |mx| < |rz| ∧ (decide (0 < A * (y * z)) != decide (0 < ry * rz)) then -rz else rz
+    ∃ σ : ℝ, (σ = 1 ∨ σ = -1) ∧ 0 ≤ σ * mx * x ∧ 0 ≤ σ * ry * y ∧ 0 ≤ σ * rz' * z := by
+  intro ry rz rz'
+  have hAxy : A * (x * y) < 0 ↔ x * y < 0 := by
+    constructor
+    · intro h; by_contra h'; have := mul_nonneg hA.le (not_lt.mp h'); linarith
+    · intro h; exact mul_neg_of_pos_of_neg hA h
+  have hAxz : A * (x * z) < 0 ↔ x * z < 0 := by
+    constructor
+    · intro h; by_contra h'; have := mul_nonneg hA.le (not_lt.mp h'); linarith
+    · intro h; exact mul_neg_of_pos_of_neg hA h
+  have hAyz : 0 < A * (y * z) ↔ 0 < y * z := by
+    constructor
+    · intro h; by_contra h'; have := mul_nonpos_of_nonneg_of_nonpos hA.le (not_lt.mp h'); linarith
+    · intro h; exact mul_pos hA h
+  have hry_abs : |ry| = my := by
+    simp only [ry]; split_ifs
+    · rw [abs_neg, abs_of_nonneg hmy]
+    · exact abs_of_nonneg hmy
+  have hrz_abs : |rz| = mz := by
+    simp only [rz]; split_ifs
+    · rw [abs_neg, abs_of_nonneg hmz]
+    · exact abs_of_nonneg hmz
+  -- ry has the sign of x·y, rz that of x·z
+  have hry : (x * y < 0 → ry = -my) ∧ (¬ x * y < 0 → ry = my) := by
+    constructor
+    · intro h; simp only [ry]; rw [if_pos (hAxy.mpr h)]
+    · intro h; simp only [ry]; rw [if_neg (fun h' => h (hAxy.mp h'))]
+  have hrz : (x * z < 0 → rz = -mz) ∧ (¬ x * z < 0 → rz = mz) := by
+    constructor
+    · intro h; simp only [rz]; rw [if_pos (hAxz.mpr h)]
+    · intro h; simp only [rz]; rw [if_neg (fun h' => h (hAxz.mp h'))]
+  have hryxy : 0 ≤ ry * (x * y) := by
+    by_cases h : x * y < 0
+    · rw [hry.1 h]; nlinarith
+    · rw [hry.2 h]; exact mul_nonneg hmy (not_lt.mp h)
+  have hrzxz : 0 ≤ rz * (x * z) := by
+    by_cases h : x * z < 0
+    · rw [hrz.1 h]; nlinarith
+    · rw [hrz.2 h]; exact mul_nonneg hmz (not_lt.mp h)
+  by_cases hc3 : |mx| < |ry| ∧ |mx| < |rz| ∧ (decide (0 < A * (y * z)) != decide (0 < ry * rz)) = true
+  · -- the third fix-up fires: only possible for x = 0, y·z < 0
+    obtain ⟨c1, c2, c3⟩ := hc3
+    rw [abs_of_nonneg hmx, hry_abs] at c1
+    rw [abs_of_nonneg hmx, hrz_abs] at c2
+    have hxy' := hxy.mp c1
+    have hxz' := hxz.mp c2
+    have hy0 : y ≠ 0 := by rintro rfl; nlinarith [mul_self_nonneg x]
+    have hz0 : z ≠ 0 := by rintro rfl; nlinarith [mul_self_nonneg x]
+    have hmy' := hy hy0
+    have hmz' := hz hz0
+    have hx0 : x = 0 := by
+      by_contra hx
+      -- ry·rz has the sign of y·z, so the two tests agree
+      have hyz0 : y * z ≠ 0 := mul_ne_zero hy0 hz0
+      have hxy0 : x * y ≠ 0 := mul_ne_zero hx hy0
+      have hxz0 : x * z ≠ 0 := mul_ne_zero hx hz0
+      have hsame : (0 < y * z) ↔ (0 < ry * rz) := by
+        have hprod : 0 < (x * y) * (x * z) ↔ 0 < y * z := by
+          have hxx : 0 < x * x := mul_self_pos.mpr hx
+          rw [show (x * y) * (x * z) = (x * x) * (y * z) by ring]
+          constructor
+          · intro h; by_contra h'; have := mul_nonpos_of_nonneg_of_nonpos hxx.le (not_lt.mp h'); linarith
+          · intro h; exact mul_pos hxx h
+        rcases lt_or_gt_of_ne hxy0 with h1 | h1 <;> rcases lt_or_gt_of_ne hxz0 with h2 | h2
+        · rw [hry.1 h1, hrz.1 h2, ← hprod]
+          constructor <;> intro _
+          · nlinarith [mul_pos hmy' hmz']
+          · exact mul_pos_of_neg_of_neg h1 h2
+        · rw [hry.1 h1, hrz.2 (not_lt.mpr h2.le), ← hprod]
+          constructor <;> intro h
+          · have := mul_neg_of_neg_of_pos h1 h2; linarith
+          · nlinarith [mul_pos hmy' hmz']
+        · rw [hry.2 (not_lt.mpr h1.le), hrz.1 h2, ← hprod]
+          constructor <;> intro h
+          · have := mul_neg_of_pos_of_neg h1 h2; linarith
+          · nlinarith [mul_pos hmy' hmz']
+        · rw [hry.2 (not_lt.mpr h1.le), hrz.2 (not_lt.mpr h2.le), ← hprod]
+          constructor <;> intro _
+          · exact mul_pos hmy' hmz'
+          · exact mul_pos h1 h2
+      rw [bne_decide_iff, hAyz] at c3
+      exact c3 hsame
+    subst hx0
+    have e1 : ry = my := hry.2 (by simp)
+    have e2 : rz = mz := hrz.2 (by simp)
+    have hyz : y * z < 0 := by
+      have c3' := c3
+      rw [bne_decide_iff, hAyz, e1, e2] at c3'
+      have hp : 0 < my * mz := mul_pos hmy' hmz'
+      by_contra h
+      have h' : 0 < y * z := lt_of_le_of_ne (not_lt.mp h) (Ne.symm (mul_ne_zero hy0 hz0))
+      exact c3' ⟨fun _ => hp, fun _ => h'⟩
+    have hrz' : rz' = -mz := by
+      simp only [rz']
+      rw [if_pos ⟨by rw [abs_of_nonneg hmx, hry_abs]; exact c1, by rw [abs_of_nonneg hmx, hrz_abs]; exact c2, c3⟩, e2]
+    rw [hrz', e1]
+    rcases lt_or_gt_of_ne hy0 with h | h
+    · refine ⟨-1, Or.inr rfl, by simp, by nlinarith, ?_⟩
+      have hz' : 0 < z := by nlinarith
+      nlinarith
+    · refine ⟨1, Or.inl rfl, by simp, by nlinarith, ?_⟩
+      have hz' : z < 0 := by nlinarith
+      nlinarith
+  · -- the third fix-up does not fire
+    have hrz' : rz' = rz := by simp only [rz']; rw [if_neg hc3]
+    rw [hrz']
+    rcases lt_trichotomy x 0 with hx | hx | hx
+    · refine ⟨-1, Or.inr rfl, by nlinarith, ?_, ?_⟩
+      · have e : x * (ry * y) = ry * (x * y) := by ring
+        have : ry * y ≤ 0 := by
+          by_contra h; have := mul_neg_of_neg_of_pos hx (not_le.mp h); linarith
+        linarith
+      · have e : x * (rz * z) = rz * (x * z) := by ring
+        have : rz * z ≤ 0 := by
+          by_contra h; have := mul_neg_of_neg_of_pos hx (not_le.mp h); linarith
+        linarith
+    · subst hx
+      have e1 : ry = my := hry.2 (by simp)
+      have e2 : rz = mz := hrz.2 (by simp)
+      rw [e1, e2]
+      by_cases hy0 : y = 0
+      · subst hy0
+        rcases le_or_gt 0 z with h | h
+        · exact ⟨1, Or.inl rfl, by simp, by simp, by nlinarith⟩
+        · exact ⟨-1, Or.inr rfl, by simp, by simp, by nlinarith⟩
+      by_cases hz0 : z = 0
+      · subst hz0
+        rcases le_or_gt 0 y with h | h
+        · exact ⟨1, Or.inl rfl, by simp, by nlinarith, by simp⟩
+        · exact ⟨-1, Or.inr rfl, by simp, by nlinarith, by simp⟩
+      -- y, z ≠ 0: the two magnitude tests hold, so the boolean part must be false: y·z > 0
+      have hmy' := hy hy0
+      have hmz' := hz hz0
+      have c1 : |mx| < |ry| := by
+        rw [abs_of_nonneg hmx, hry_abs, hxy]; simp only [mul_zero]; exact mul_self_pos.mpr hy0
+      have c2 : |mx| < |rz| := by
+        rw [abs_of_nonneg hmx, hrz_abs, hxz]; simp only [mul_zero]; exact mul_self_pos.mpr hz0
+      have hyz : 0 < y * z := by
+        by_contra h
+        apply hc3
+        refine ⟨c1, c2, ?_⟩
+        rw [bne_decide_iff, hAyz, e1, e2]
+        have hp : 0 < my * mz := mul_pos hmy' hmz'
+        exact fun hiff => h (hiff.mpr hp)
+      rcases lt_or_gt_of_ne hy0 with h | h
+      · have hz' : z < 0 := by nlinarith
+        exact ⟨-1, Or.inr rfl, by simp, by nlinarith, by nlinarith⟩
+      · have hz' : 0 < z := by nlinarith
+        exact ⟨1, Or.inl rfl, by simp, by nlinarith, by nlinarith⟩
+    · refine ⟨1, Or.inl rfl, by nlinarith, ?_, ?_⟩
+      · have e : x * (ry * y) = ry * (x * y) := by ring
+        have : 0 ≤ ry * y := by
+          by_contra h; have := mul_neg_of_pos_of_neg hx (not_le.mp h); linarith
+        linarith
+      · have e : x * (rz * z) = rz * (x * z) := by ring
+        have : 0 ≤ rz * z := by
+          by_contra h; have := mul_neg_of_pos_of_neg hx (not_le.mp h); linarith
+        linarith
+
+/-- a component with the magnitude of `k` and (weakly) the sign of `σ·k` is `σ·k` -/
+theorem eq_of_sq_eq_of_sign (v k σ : ℝ) (hσ : σ = 1 ∨ σ = -1) (h2 : v * v = k * k) (hs : 0 ≤ σ * v * k) :
+    v = σ * k := by
+  have hσ2 : σ * σ = 1 := by rcases hσ with h | h <;> rw [h] <;> norm_num
+  have h3 : σ * v * k = k * k := by
+    have hsq : (σ * v * k) * (σ * v * k) = (k * k) * (k * k) := by
+      linear_combination (v * v * k * k) * hσ2 + (k * k) * h2
+    exact (mul_self_inj hs (mul_self_nonneg k)).mp hsq
+  have h4 : (v - σ * k) * (v - σ * k) = 0 := by
+    linear_combination h2 - 2 * h3 + (k * k) * hσ2
+  have := mul_self_eq_zero.mp h4
+  linarith
+
+/-- the components of the recovered axis are `± sqrt(clip((diag + 1)/2))`, whatever the sign fix-ups do -/
+theorem halfTurnAxis_sq (p : M3 ℝ) :
+    (halfTurnAxis p).x * (halfTurnAxis p).x = clip0 ((p.r0.x + 1) * (1 / 2)) ∧
+    (halfTurnAxis p).y * (halfTurnAxis p).y = clip0 ((p.r1.y + 1) * (1 / 2)) ∧
+    (halfTurnAxis p).z * (halfTurnAxis p).z = clip0 ((p.r2.z + 1) * (1 / 2)) := by
+  unfold halfTurnAxis
+  simp only [rodHalf_eq, sqrt_eq]
+  refine ⟨?_, ?_, ?_⟩
+  · exact Real.mul_self_sqrt (clip0_ge _)
+  · split_ifs <;> first
+      | exact Real.mul_self_sqrt (clip0_ge _)
+      | (simp only [neg_mul_neg, neg_neg]; exact Real.mul_self_sqrt (clip0_ge _))
+  · split_ifs <;> first
+      | exact Real.mul_self_sqrt (clip0_ge _)
+      | (simp only [neg_mul_neg, neg_neg]; exact Real.mul_self_sqrt (clip0_ge _))
+
+/-- the recovered axis on a matrix whose symmetric part is that of a rotation about `(x,y,z)` close to a half-turn:
+    diagonal `(p_ii + 1)/2 = a + b·kᵢ²` (`a ≥ 0`, `b > 0`), off-diagonal sums `A·kᵢkⱼ` (`A > 0`).  Its components
+    have the sign pattern of `k` or of `−k` (weakly). -/
+theorem halfTurnAxis_signs (p : M3 ℝ) (k : V3 ℝ) (A a b : ℝ) (hA : 0 < A) (ha : 0 ≤ a) (hb : 0 < b)
+    (d0 : (p.r0.x + 1) * (1 / 2) = a + b * (k.x * k.x)) (d1 : (p.r1.y + 1) * (1 / 2) = a + b * (k.y * k.y))
+    (d2 : (p.r2.z + 1) * (1 / 2) = a + b * (k.z * k.z))
+    (o1 : p.r0.y + p.r1.x = A * (k.x * k.y)) (o2 : p.r0.z + p.r2.x = A * (k.x * k.z))
+    (o3 : p.r1.z + p.r2.y = A * (k.y * k.z)) :
+    ∃ σ : ℝ, (σ = 1 ∨ σ = -1) ∧ 0 ≤ σ * (halfTurnAxis p).x * k.x ∧ 0 ≤ σ * (halfTurnAxis p).y * k.y ∧
+      0 ≤ σ * (halfTurnAxis p).z * k.z := by
+  have n0 : 0 ≤ a + b * (k.x * k.x) := add_nonneg ha (mul_nonneg hb.le (mul_self_nonneg _))
+  have n1 : 0 ≤ a + b * (k.y * k.y) := add_nonneg ha (mul_nonneg hb.le (mul_self_nonneg _))
+  have n2 : 0 ≤ a + b * (k.z * k.z) := add_nonneg ha (mul_nonneg hb.le (mul_self_nonneg _))
+  obtain ⟨t0, t1, t2⟩ := signTestVal_forms p
+  have key := sign_fix_gen k.x k.y k.z A (Real.sqrt (a + b * (k.x * k.x))) (Real.sqrt (a + b * (k.y * k.y)))
+    (Real.sqrt (a + b * (k.z * k.z))) hA (Real.sqrt_nonneg _) (Real.sqrt_nonneg _) (Real.sqrt_nonneg _)
+    (fun h => Real.sqrt_pos.mpr (by have := mul_pos hb (mul_self_pos.mpr h); linarith))
+    (fun h => Real.sqrt_pos.mpr (by have := mul_pos hb (mul_self_pos.mpr h); linarith))
+    (by rw [Real.sqrt_lt_sqrt_iff n0]
+        constructor
+        · intro h; have := (mul_lt_mul_iff_right₀ hb).mp (by linarith : b * (k.x * k.x) < b * (k.y * k.y)); exact this
+        · intro h; have := mul_lt_mul_of_pos_left h hb; linarith)
+    (by rw [Real.sqrt_lt_sqrt_iff n0]
+        constructor
+        · intro h; have := (mul_lt_mul_iff_right₀ hb).mp (by linarith : b * (k.x * k.x) < b * (k.z * k.z)); exact this
+        · intro h; have := mul_lt_mul_of_pos_left h hb; linarith)
+  unfold halfTurnAxis
+  simp only [t0, t1, t2, o1, o2, o3, rodHalf_eq, d0, d1, d2, clip0_nonneg _ n0, clip0_nonneg _ n1, clip0_nonneg _ n2,
+    sqrt_eq, absK_eq]
+  exact key
+
+/-- on a matrix with the diagonal and the symmetric part of `2kkᵀ − I` the recovered axis is `k` or `−k` -/
 theorem halfTurnAxis_of (p : M3 ℝ) (k : V3 ℝ)
     (d0 : p.r0.x = 2 * (k.x * k.x) - 1) (d1 : p.r1.y = 2 * (k.y * k.y) - 1) (d2 : p.r2.z = 2 * (k.z * k.z) - 1)
-    (o1 : p.r0.y = 2 * (k.y * k.x)) (o2 : p.r0.z = 2 * (k.z * k.x)) (o3 : p.r1.z = 2 * (k.z * k.y)) :
+    (o1 : p.r0.y + p.r1.x = 4 * (k.x * k.y)) (o2 : p.r0.z + p.r2.x = 4 * (k.x * k.z))
+    (o3 : p.r1.z + p.r2.y = 4 * (k.y * k.z)) :
     halfTurnAxis p = k ∨ halfTurnAxis p = -k := by
-  have hsq : ∀ t : ℝ, PW.Sqrt.sqrt (Rod.clip0 ((2 * (t * t) - 1 + 1) * (1 / 2))) = |t| := by
-    intro t
-    rw [show (2 * (t * t) - 1 + 1) * (1 / 2) = t * t by ring, clip0_nonneg _ (mul_self_nonneg t), sqrt_eq]
-    exact Real.sqrt_mul_self_eq_abs t
-  unfold halfTurnAxis
-  simp only [d0, d1, d2, o1, o2, o3, rodHalf_eq, absK_eq, hsq, abs_abs]
-  rcases sign_fix k.x k.y k.z with ⟨h1, h2, h3⟩ | ⟨h1, h2, h3⟩
-  · left
-    ext
-    · exact h1
-    · exact h2
-    · exact h3
-  · right
-    ext
-    · simpa using h1
-    · simpa using h2
-    · simpa using h3
+  have e0 : (p.r0.x + 1) * (1 / 2) = 0 + 1 * (k.x * k.x) := by rw [d0]; ring
+  have e1 : (p.r1.y + 1) * (1 / 2) = 0 + 1 * (k.y * k.y) := by rw [d1]; ring
+  have e2 : (p.r2.z + 1) * (1 / 2) = 0 + 1 * (k.z * k.z) := by rw [d2]; ring
+  obtain ⟨σ, hσ, s0, s1, s2⟩ := halfTurnAxis_signs p k 4 0 1 (by norm_num) le_rfl one_pos e0 e1 e2 o1 o2 o3
+  obtain ⟨q0, q1, q2⟩ := halfTurnAxis_sq p
+  rw [e0, clip0_nonneg _ (by nlinarith [mul_self_nonneg k.x])] at q0
+  rw [e1, clip0_nonneg _ (by nlinarith [mul_self_nonneg k.y])] at q1
+  rw [e2, clip0_nonneg _ (by nlinarith [mul_self_nonneg k.z])] at q2
+  have c0 := eq_of_sq_eq_of_sign _ k.x σ hσ (by rw [q0]; ring) s0
+  have c1 := eq_of_sq_eq_of_sign _ k.y σ hσ (by rw [q1]; ring) s1
+  have c2 := eq_of_sq_eq_of_sign _ k.z σ hσ (by rw [q2]; ring) s2
+  rcases hσ with h | h <;> rw [h] at c0 c1 c2
+  · left; ext <;> simp [c0, c1, c2]
+  · right; ext <;> simp [c0, c1, c2]
 
 theorem norm_smul (a : ℝ) (v : V3 ℝ) : (V3.smul a v).norm = |a| * v.norm := by
   rw [norm_def, norm_def, V3.dot_def, V3.dot_def]
@@ -283,8 +514,10 @@ theorem inv_core_half (thr : ℝ) (p : M3 ℝ) (k : V3 ℝ)
 /-- entries of `2kkᵀ − I = rodFormula (−1) 0 k` -/
 theorem half_turn_entries (k : V3 ℝ) (hk : k.dot k = 1) :
     (rodFormula (-1) 0 k).r0.x = 2 * (k.x * k.x) - 1 ∧ (rodFormula (-1) 0 k).r1.y = 2 * (k.y * k.y) - 1 ∧
-    (rodFormula (-1) 0 k).r2.z = 2 * (k.z * k.z) - 1 ∧ (rodFormula (-1) 0 k).r0.y = 2 * (k.y * k.x) ∧
-    (rodFormula (-1) 0 k).r0.z = 2 * (k.z * k.x) ∧ (rodFormula (-1) 0 k).r1.z = 2 * (k.z * k.y) ∧
+    (rodFormula (-1) 0 k).r2.z = 2 * (k.z * k.z) - 1 ∧
+    (rodFormula (-1) 0 k).r0.y + (rodFormula (-1) 0 k).r1.x = 4 * (k.x * k.y) ∧
+    (rodFormula (-1) 0 k).r0.z + (rodFormula (-1) 0 k).r2.x = 4 * (k.x * k.z) ∧
+    (rodFormula (-1) 0 k).r1.z + (rodFormula (-1) 0 k).r2.y = 4 * (k.y * k.z) ∧
     (rodFormula (-1) 0 k).r2.y - (rodFormula (-1) 0 k).r1.z = 0 ∧
     (rodFormula (-1) 0 k).r0.z - (rodFormula (-1) 0 k).r2.x = 0 ∧
     (rodFormula (-1) 0 k).r1.x - (rodFormula (-1) 0 k).r0.y = 0 ∧
@@ -297,6 +530,18 @@ def entriesWithin (a b : M3 ℝ) (t : ℝ) : Prop :=
   |a.r0.x - b.r0.x| ≤ t ∧ |a.r0.y - b.r0.y| ≤ t ∧ |a.r0.z - b.r0.z| ≤ t ∧
   |a.r1.x - b.r1.x| ≤ t ∧ |a.r1.y - b.r1.y| ≤ t ∧ |a.r1.z - b.r1.z| ≤ t ∧
   |a.r2.x - b.r2.x| ≤ t ∧ |a.r2.y - b.r2.y| ≤ t ∧ |a.r2.z - b.r2.z| ≤ t
+
+theorem entriesWithin_symm {a b : M3 ℝ} {t : ℝ} (h : entriesWithin a b t) : entriesWithin b a t := by
+  unfold entriesWithin at h ⊢
+  obtain ⟨h1, h2, h3, h4, h5, h6, h7, h8, h9⟩ := h
+  exact ⟨by rwa [abs_sub_comm], by rwa [abs_sub_comm], by rwa [abs_sub_comm], by rwa [abs_sub_comm],
+    by rwa [abs_sub_comm], by rwa [abs_sub_comm], by rwa [abs_sub_comm], by rwa [abs_sub_comm], by rwa [abs_sub_comm]⟩
+
+theorem entriesWithin_mono {a b : M3 ℝ} {t u : ℝ} (h : entriesWithin a b t) (htu : t ≤ u) : entriesWithin a b u := by
+  unfold entriesWithin at h ⊢
+  obtain ⟨h1, h2, h3, h4, h5, h6, h7, h8, h9⟩ := h
+  exact ⟨h1.trans htu, h2.trans htu, h3.trans htu, h4.trans htu, h5.trans htu, h6.trans htu, h7.trans htu,
+    h8.trans htu, h9.trans htu⟩
 
 theorem bound_entry (a s t u : ℝ) (ha0 : 0 ≤ a) (ha : a ≤ s * s) (hs0 : 0 ≤ s) (ht : |t| ≤ 1) (hu : |u| ≤ 1) :
     |a * t + s * u| ≤ s + s * s := by
@@ -373,6 +618,332 @@ theorem inv_core_zero (thr : ℝ) (p : M3 ℝ) (s c : ℝ) (k : V3 ℝ)
     exact clip_mem c (by linarith) hc2
   unfold rodriguesInverseCore
   simp only [e1, e2, e3, hnorm, hc, if_pos hthr, if_pos hc0]
+
+/-! ### the near-π half of the snap branch -/
+
+/-- the snap branch with `c ≤ 0` on a matrix whose antisymmetric part is `2 s [k]×` and whose trace is `1 + 2c`:
+    the recovered axis scaled to length `θ = arccos c` -/
+theorem inv_core_near_pi (thr : ℝ) (p : M3 ℝ) (s c θ : ℝ) (k : V3 ℝ)
+    (e1 : p.r2.y - p.r1.z = 2 * s * k.x) (e2 : p.r0.z - p.r2.x = 2 * s * k.y) (e3 : p.r1.x - p.r0.y = 2 * s * k.z)
+    (htr : p.r0.x + p.r1.y + p.r2.z = 1 + 2 * c) (hk : k.dot k = 1) (hs : 0 ≤ s) (hc1 : -1 ≤ c) (hc0 : c ≤ 0)
+    (hθ : Real.arccos c = θ) (hthr : s < thr) :
+    (rodriguesInverseCore thr p).w = V3.smul (θ / (halfTurnAxis p).norm) (halfTurnAxis p) := by
+  rw [V3.dot_def] at hk
+  have hnorm : V3.norm (⟨2 * s * k.x, 2 * s * k.y, 2 * s * k.z⟩ : V3 ℝ) * PW.Sqrt.sqrt (Rod.rodQuarter : ℝ) = s := by
+    rw [sqrt_quarter, norm_def, V3.dot_def]
+    simp only
+    rw [show 2 * s * k.x * (2 * s * k.x) + 2 * s * k.y * (2 * s * k.y) + 2 * s * k.z * (2 * s * k.z) = (2 * s) * (2 * s) by
+      linear_combination (4 * s * s) * hk]
+    rw [Real.sqrt_mul_self (by positivity)]
+    ring
+  have hc : Rod.clip ((p.r0.x + p.r1.y + p.r2.z - 1) * Rod.rodHalf) (-1) 1 = c := by
+    rw [htr, rodHalf_eq, show (1 + 2 * c - 1) * (1 / 2) = c by ring]
+    exact clip_mem c hc1 (by linarith)
+  unfold rodriguesInverseCore
+  simp only [e1, e2, e3, hnorm, hc, if_pos hthr, if_neg (not_lt.mpr hc0), acos_eq, hθ]
+
+/-- … and its Jacobian is the all-zero 9×3 array -/
+theorem inv_core_near_pi_jac (thr : ℝ) (p : M3 ℝ) (s c : ℝ) (k : V3 ℝ)
+    (e1 : p.r2.y - p.r1.z = 2 * s * k.x) (e2 : p.r0.z - p.r2.x = 2 * s * k.y) (e3 : p.r1.x - p.r0.y = 2 * s * k.z)
+    (htr : p.r0.x + p.r1.y + p.r2.z = 1 + 2 * c) (hk : k.dot k = 1) (hs : 0 ≤ s) (hc1 : -1 ≤ c) (hc0 : c ≤ 0)
+    (hthr : s < thr) :
+    (rodriguesInverseCore thr p).jac = zeroJac := by
+  rw [V3.dot_def] at hk
+  have hnorm : V3.norm (⟨2 * s * k.x, 2 * s * k.y, 2 * s * k.z⟩ : V3 ℝ) * PW.Sqrt.sqrt (Rod.rodQuarter : ℝ) = s := by
+    rw [sqrt_quarter, norm_def, V3.dot_def]
+    simp only
+    rw [show 2 * s * k.x * (2 * s * k.x) + 2 * s * k.y * (2 * s * k.y) + 2 * s * k.z * (2 * s * k.z) = (2 * s) * (2 * s) by
+      linear_combination (4 * s * s) * hk]
+    rw [Real.sqrt_mul_self (by positivity)]
+    ring
+  have hc : Rod.clip ((p.r0.x + p.r1.y + p.r2.z - 1) * Rod.rodHalf) (-1) 1 = c := by
+    rw [htr, rodHalf_eq, show (1 + 2 * c - 1) * (1 / 2) = c by ring]
+    exact clip_mem c hc1 (by linarith)
+  unfold rodriguesInverseCore
+  simp only [e1, e2, e3, hnorm, hc, if_pos hthr, if_neg (not_lt.mpr hc0)]
+
+theorem frob_zero (m : M3 ℝ) (b : Nat) : frob m ((zeroJac : J3 ℝ).get b) = 0 := by
+  have h : (zeroJac : J3 ℝ).get b = m3Zero := by
+    unfold J3.get zeroJac; split <;> rfl
+  rw [h]
+  simp [frob, m3Zero, V3.dot_def, V3.zero]
+
+theorem clip0_eq_zero_iff (u : ℝ) : clip0 u = 0 ↔ u ≤ 0 := by
+  unfold clip0
+  split_ifs with h
+  · exact ⟨fun _ => h.le, fun _ => rfl⟩
+  · exact ⟨fun h' => h'.le, fun h' => le_antisymm h' (not_lt.mp h)⟩
+
+/-- the recovered axis is the zero vector exactly when every diagonal entry is `≤ −1` -/
+theorem halfTurnAxis_norm_zero_iff (p : M3 ℝ) :
+    (halfTurnAxis p).norm = 0 ↔ p.r0.x ≤ -1 ∧ p.r1.y ≤ -1 ∧ p.r2.z ≤ -1 := by
+  obtain ⟨q0, q1, q2⟩ := halfTurnAxis_sq p
+  have g0 := clip0_ge ((p.r0.x + 1) * (1 / 2))
+  have g1 := clip0_ge ((p.r1.y + 1) * (1 / 2))
+  have g2 := clip0_ge ((p.r2.z + 1) * (1 / 2))
+  rw [norm_def, Real.sqrt_eq_zero', V3.dot_def, q0, q1, q2]
+  have z0 := clip0_eq_zero_iff ((p.r0.x + 1) * (1 / 2))
+  have z1 := clip0_eq_zero_iff ((p.r1.y + 1) * (1 / 2))
+  have z2 := clip0_eq_zero_iff ((p.r2.z + 1) * (1 / 2))
+  constructor
+  · intro h
+    exact ⟨by have := z0.mp (by linarith); linarith, by have := z1.mp (by linarith); linarith,
+      by have := z2.mp (by linarith); linarith⟩
+  · rintro ⟨h0, h1, h2⟩
+    rw [z0.mpr (by linarith), z1.mpr (by linarith), z2.mpr (by linarith)]
+    norm_num
+
+/-- a recovered component `v` with `v² = a + (1−a)k²` and the sign of `σ·k` is within `√a` of `σ·k` -/
+theorem component_close (a q k v σ : ℝ) (ha0 : 0 ≤ a) (ha1 : a ≤ 1) (hq0 : 0 ≤ q) (hq : q * q = a)
+    (hk1 : k * k ≤ 1) (hv : v * v = a + (1 - a) * (k * k)) (hσ : σ = 1 ∨ σ = -1) (hsgn : 0 ≤ σ * v * k) :
+    |σ * v - k| ≤ q := by
+  have hσ2 : σ * σ = 1 := by rcases hσ with h | h <;> rw [h] <;> norm_num
+  set r := σ * v with hr
+  have hr2 : r * r = a + (1 - a) * (k * k) := by
+    rw [hr, ← hv]; linear_combination (v * v) * hσ2
+  have hge : k * k ≤ r * r := by rw [hr2]; nlinarith
+  -- r k ≥ k²
+  have hrk : k * k ≤ r * k := by
+    by_contra h
+    have h := not_le.mp h
+    have := mul_self_lt_mul_self hsgn h
+    nlinarith [mul_self_nonneg k]
+  apply abs_le_of_sq_le_sq _ hq0
+  nlinarith [mul_self_nonneg k]
+
+/-- `|x| + |y| + 2|z| ≤ √6 < 2.45` on the unit sphere -/
+theorem weighted_abs_sum (x y z : ℝ) (h : x * x + y * y + z * z = 1) : |x| + |y| + 2 * |z| ≤ 49 / 20 := by
+  have hx := abs_mul_abs_self x
+  have hy := abs_mul_abs_self y
+  have hz := abs_mul_abs_self z
+  have h6 : (|x| + |y| + 2 * |z|) * (|x| + |y| + 2 * |z|) ≤ 6 := by
+    nlinarith [mul_self_nonneg (|x| - |y|), mul_self_nonneg (2 * |x| - |z|), mul_self_nonneg (2 * |y| - |z|)]
+  by_contra hc
+  have hc := not_le.mp hc
+  have := mul_self_lt_mul_self (by norm_num : (0 : ℝ) ≤ 49 / 20) hc
+  nlinarith
+
+/-- `2√a ≤ s(1+a)` when `s² = 4a(1−a)`, `a ≤ 1/2` -/
+theorem two_sqrt_a_le (a s q : ℝ) (ha0 : 0 ≤ a) (ha : a ≤ 1 / 2) (hs0 : 0 ≤ s) (hsa : s * s = 4 * a * (1 - a))
+    (hq0 : 0 ≤ q) (hq : q * q = a) : 2 * q ≤ s * (1 + a) := by
+  by_contra h
+  have h := not_le.mp h
+  have h1 := mul_self_lt_mul_self (by positivity : 0 ≤ s * (1 + a)) h
+  have h2 : s * (1 + a) * (s * (1 + a)) = 4 * a * (1 - a) * ((1 + a) * (1 + a)) := by
+    linear_combination ((1 + a) * (1 + a)) * hsa
+  have h3 : 2 * q * (2 * q) = 4 * a := by linear_combination 4 * hq
+  rw [h2, h3] at h1
+  have h4 : 0 ≤ a * a * (1 - a - a * a) := mul_nonneg (mul_nonneg ha0 ha0) (by nlinarith)
+  nlinarith
+
+/-- the product part: `|uᵢuⱼ − kᵢkⱼ| ≤ √a(|kᵢ| + |kⱼ|) + 2a` -/
+theorem prod_dev_bound (a q N ki kj vi vj σ : ℝ)
+    (ha0 : 0 ≤ a) (hq0 : 0 ≤ q) (hq : q * q = a) (hN0 : 0 < N) (hN : N * N = 1 + 2 * a)
+    (hσ2 : σ * σ = 1) (hei : |σ * vi - ki| ≤ q) (hej : |σ * vj - kj| ≤ q) (hkk : |ki| * |kj| ≤ 1 / 2) :
+    |(1 / N * vi) * (1 / N * vj) - ki * kj| ≤ q * (|ki| + |kj|) + 2 * a := by
+  have hNN : (0 : ℝ) < 1 + 2 * a := by linarith
+  have hNne : N ≠ 0 := ne_of_gt hN0
+  obtain ⟨ei, hei'⟩ : ∃ ei, ei = σ * vi - ki := ⟨_, rfl⟩
+  obtain ⟨ej, hej'⟩ : ∃ ej, ej = σ * vj - kj := ⟨_, rfl⟩
+  rw [← hei'] at hei
+  rw [← hej'] at hej
+  have hvivj : vi * vj = (ki + ei) * (kj + ej) := by
+    rw [hei', hej']; linear_combination (-(vi * vj)) * hσ2
+  have e0 : (1 / N * vi) * (1 / N * vj) = (vi * vj) / (1 + 2 * a) := by
+    rw [← hN]; field_simp
+  have e : (1 / N * vi) * (1 / N * vj) - ki * kj =
+      (ei * kj + ki * ej + ei * ej - 2 * a * (ki * kj)) / (1 + 2 * a) := by
+    rw [e0, hvivj, eq_div_iff (ne_of_gt hNN)]
+    field_simp
+    ring
+  rw [e, abs_div, abs_of_pos hNN, div_le_iff₀ hNN]
+  have t1 : |ei * kj| ≤ q * |kj| := by rw [abs_mul]; exact mul_le_mul_of_nonneg_right hei (abs_nonneg _)
+  have t2 : |ki * ej| ≤ q * |ki| := by
+    rw [abs_mul, mul_comm]; exact mul_le_mul_of_nonneg_right hej (abs_nonneg _)
+  have t3 : |ei * ej| ≤ a := by
+    rw [abs_mul, ← hq]; exact mul_le_mul hei hej (abs_nonneg _) hq0
+  have t4 : |2 * a * (ki * kj)| ≤ a := by
+    rw [abs_mul (2 * a) (ki * kj), abs_of_nonneg (by positivity : (0 : ℝ) ≤ 2 * a), abs_mul ki kj]
+    have := mul_le_mul_of_nonneg_left hkk (by positivity : (0 : ℝ) ≤ 2 * a)
+    linarith
+  have hpos : 0 ≤ q * (|ki| + |kj|) + 2 * a := by positivity
+  have s1 : |ei * kj + ki * ej + ei * ej - 2 * a * (ki * kj)| ≤
+      |ei * kj + ki * ej + ei * ej| + |2 * a * (ki * kj)| := abs_sub _ _
+  have s2 : |ei * kj + ki * ej + ei * ej| ≤ |ei * kj + ki * ej| + |ei * ej| := abs_add_le _ _
+  have s3 : |ei * kj + ki * ej| ≤ |ei * kj| + |ki * ej| := abs_add_le _ _
+  have s4 : q * (|ki| + |kj|) + 2 * a ≤ (q * (|ki| + |kj|) + 2 * a) * (1 + 2 * a) := by
+    have := mul_nonneg hpos (by positivity : (0 : ℝ) ≤ 2 * a)
+    linarith
+  linarith
+
+/-- the axis part: `|u_l − k_l| ≤ 2|k_l| + √a` (whichever of `±k` was recovered) -/
+theorem axis_dev_bound (q N kl vl σ : ℝ) (hN1 : 1 ≤ N) (hσ : σ = 1 ∨ σ = -1) (hel : |σ * vl - kl| ≤ q) :
+    |1 / N * vl - kl| ≤ 2 * |kl| + q := by
+  have hN0 : 0 < N := by linarith
+  have hvl : |vl| ≤ |kl| + q := by
+    have h1 : |σ * vl| = |vl| := by
+      rw [abs_mul]; rcases hσ with h | h <;> rw [h] <;> simp
+    rw [← h1]
+    have h2 : σ * vl = kl + (σ * vl - kl) := by ring
+    rw [h2]
+    exact (abs_add_le _ _).trans (by linarith)
+  have h1N : |1 / N * vl| ≤ |vl| := by
+    rw [abs_mul, abs_of_pos (by positivity : 0 < 1 / N)]
+    have : 1 / N ≤ 1 := by rw [div_le_one hN0]; exact hN1
+    exact mul_le_of_le_one_left (abs_nonneg _) this
+  have h3 : |1 / N * vl - kl| ≤ |1 / N * vl| + |kl| := abs_sub _ _
+  linarith
+
+/-- an off-diagonal entry of `rot(u, θ) − rot(k, θ)` for `u = v/N`, `v` the recovered axis:
+    `(1−c)(uᵢuⱼ − kᵢkⱼ) ± s(u_l − k_l)` with `c = 2a − 1`, bounded by `2.5·s` for `s ≤ 1/100` -/
+theorem offdiag_bound (a s q N ki kj kl vi vj vl σ ε : ℝ)
+    (ha0 : 0 ≤ a) (ha : a ≤ 1 / 2) (hs0 : 0 ≤ s) (hs1 : s ≤ 1 / 100) (hsa : s * s = 4 * a * (1 - a))
+    (hq0 : 0 ≤ q) (hq : q * q = a) (hN1 : 1 ≤ N) (hN : N * N = 1 + 2 * a)
+    (hσ : σ = 1 ∨ σ = -1) (hε : ε = 1 ∨ ε = -1)
+    (hei : |σ * vi - ki| ≤ q) (hej : |σ * vj - kj| ≤ q) (hel : |σ * vl - kl| ≤ q)
+    (hk : ki * ki + kj * kj + kl * kl = 1) :
+    |2 * (1 - a) * ((1 / N * vi) * (1 / N * vj) - ki * kj) + s * ε * (1 / N * vl - kl)| ≤ 5 / 2 * s := by
+  have hσ2 : σ * σ = 1 := by rcases hσ with h | h <;> rw [h] <;> norm_num
+  have hN0 : 0 < N := by linarith
+  have hki : |ki| ≤ 1 := abs_le_one_iff_mul_self_le_one.mpr (by nlinarith [mul_self_nonneg kj, mul_self_nonneg kl])
+  have hkj : |kj| ≤ 1 := abs_le_one_iff_mul_self_le_one.mpr (by nlinarith [mul_self_nonneg ki, mul_self_nonneg kl])
+  have hkk : |ki| * |kj| ≤ 1 / 2 := by
+    nlinarith [mul_self_nonneg (|ki| - |kj|), abs_mul_abs_self ki, abs_mul_abs_self kj, mul_self_nonneg kl]
+  have hsum := weighted_abs_sum ki kj kl hk
+  have ha2 : 2 * a ≤ s * s := by
+    have : 0 ≤ a * (1 - 2 * a) := mul_nonneg ha0 (by linarith)
+    linarith
+  have h2q : 2 * q ≤ s * (1 + a) := two_sqrt_a_le a s q ha0 ha hs0 hsa hq0 hq
+  have hq34 : q ≤ 3 / 4 * s := by
+    have : s * a ≤ s * (1 / 2) := mul_le_mul_of_nonneg_left ha hs0
+    linarith
+  have hD := prod_dev_bound a q N ki kj vi vj σ ha0 hq0 hq hN0 hN hσ2 hei hej hkk
+  have hL := axis_dev_bound q N kl vl σ hN1 hσ hel
+  have hε1 : |ε| = 1 := by rcases hε with h | h <;> rw [h] <;> simp
+  have T1 : |2 * (1 - a) * ((1 / N * vi) * (1 / N * vj) - ki * kj)| ≤ 2 * (q * (|ki| + |kj|) + 2 * a) := by
+    rw [abs_mul, abs_of_nonneg (by linarith : (0 : ℝ) ≤ 2 * (1 - a))]
+    have : 2 * (1 - a) ≤ 2 := by linarith
+    exact mul_le_mul this hD (abs_nonneg _) (by norm_num)
+  have T2 : |s * ε * (1 / N * vl - kl)| ≤ s * (2 * |kl| + q) := by
+    rw [abs_mul, abs_mul, hε1, mul_one, abs_of_nonneg hs0]
+    exact mul_le_mul_of_nonneg_left hL hs0
+  have hkij : 0 ≤ |ki| + |kj| := by positivity
+  have hkij2 : |ki| + |kj| ≤ 2 := by linarith
+  have u1 := mul_le_mul_of_nonneg_right h2q hkij
+  have u2 := mul_le_mul_of_nonneg_left hq34 hs0
+  have u3 := mul_le_mul_of_nonneg_left hsum hs0
+  have u4 := mul_le_mul_of_nonneg_left hkij2 (mul_nonneg hs0 ha0)
+  have u5 : s * a ≤ s * (s * s / 2) := mul_le_mul_of_nonneg_left (by linarith) hs0
+  have u6 : s * s ≤ s * (1 / 100) := mul_le_mul_of_nonneg_left hs1 hs0
+  have u7 : s * (s * s) ≤ s * (s * (1 / 100)) := mul_le_mul_of_nonneg_left u6 hs0
+  have u8 := (abs_add_le (2 * (1 - a) * ((1 / N * vi) * (1 / N * vj) - ki * kj)) (s * ε * (1 / N * vl - kl)))
+  nlinarith
+
+/-- a diagonal entry of `rot(u, θ) − rot(k, θ)`: `(1−c)(uᵢ² − kᵢ²)`, of order `s²` -/
+theorem diag_bound (a s N k v : ℝ)
+    (ha0 : 0 ≤ a) (ha : a ≤ 1 / 2) (hs0 : 0 ≤ s) (hs1 : s ≤ 1 / 100) (hsa : s * s = 4 * a * (1 - a))
+    (hN1 : 1 ≤ N) (hN : N * N = 1 + 2 * a) (hk1 : k * k ≤ 1) (hv : v * v = a + (1 - a) * (k * k)) :
+    |2 * (1 - a) * ((1 / N * v) * (1 / N * v) - k * k)| ≤ 5 / 2 * s := by
+  have hN0 : 0 < N := by linarith
+  have hNN : (0 : ℝ) < 1 + 2 * a := by linarith
+  have ha2 : 2 * a ≤ s * s := by nlinarith
+  have e : (1 / N * v) * (1 / N * v) - k * k = a * (1 - 3 * (k * k)) / (1 + 2 * a) := by
+    have hNne : N ≠ 0 := ne_of_gt hN0
+    have e0 : (1 / N * v) * (1 / N * v) = (v * v) / (1 + 2 * a) := by
+      rw [← hN]; field_simp
+    rw [e0, hv, eq_div_iff (ne_of_gt hNN)]
+    field_simp
+    ring
+  have hD : |(1 / N * v) * (1 / N * v) - k * k| ≤ 2 * a := by
+    rw [e, abs_div, abs_of_pos hNN, div_le_iff₀ hNN, abs_mul, abs_of_nonneg ha0]
+    have : |1 - 3 * (k * k)| ≤ 2 := abs_le.mpr ⟨by nlinarith [mul_self_nonneg k], by nlinarith [mul_self_nonneg k]⟩
+    nlinarith
+  rw [abs_mul, abs_of_nonneg (by linarith : (0 : ℝ) ≤ 2 * (1 - a))]
+  have : 2 * (1 - a) * |(1 / N * v) * (1 / N * v) - k * k| ≤ 2 * (2 * a) :=
+    mul_le_mul (by linarith) hD (abs_nonneg _) (by norm_num)
+  nlinarith
+
+/-- `rot(v/‖v‖, θ)` is within `2.5·sin θ` of `rot(k, θ)`, entrywise, when `v` has the magnitudes the half-turn branch
+    recovers from the diagonal (`vᵢ² = a + (1−a)kᵢ²`, `a = (1 + cos θ)/2`) and the signs of `k` or of `−k`
+    (weakly: a zero component of `k` puts no condition on that of `v`) -/
+theorem near_pi_entries (c s σ : ℝ) (k v : V3 ℝ) (hk : k.dot k = 1) (hcs : c * c + s * s = 1)
+    (hc1 : -1 ≤ c) (hc0 : c ≤ 0) (hs0 : 0 ≤ s) (hs1 : s ≤ 1 / 100)
+    (hvx : v.x * v.x = (1 + c) / 2 + (1 - (1 + c) / 2) * (k.x * k.x))
+    (hvy : v.y * v.y = (1 + c) / 2 + (1 - (1 + c) / 2) * (k.y * k.y))
+    (hvz : v.z * v.z = (1 + c) / 2 + (1 - (1 + c) / 2) * (k.z * k.z))
+    (hσ : σ = 1 ∨ σ = -1) (hsx : 0 ≤ σ * v.x * k.x) (hsy : 0 ≤ σ * v.y * k.y) (hsz : 0 ≤ σ * v.z * k.z) :
+    entriesWithin (rodFormula c s (V3.smul (1 / v.norm) v)) (rodFormula c s k) (5 / 2 * s) := by
+  obtain ⟨a, ha⟩ : ∃ a, c = 2 * a - 1 := ⟨(1 + c) / 2, by ring⟩
+  subst ha
+  rw [V3.dot_def] at hk
+  have hvx' : v.x * v.x = a + (1 - a) * (k.x * k.x) := by rw [hvx]; ring
+  have hvy' : v.y * v.y = a + (1 - a) * (k.y * k.y) := by rw [hvy]; ring
+  have hvz' : v.z * v.z = a + (1 - a) * (k.z * k.z) := by rw [hvz]; ring
+  have ha0 : 0 ≤ a := by linarith
+  have ha : a ≤ 1 / 2 := by linarith
+  have ha1 : a ≤ 1 := by linarith
+  have hsa : s * s = 4 * a * (1 - a) := by linear_combination hcs
+  have hq0 : 0 ≤ Real.sqrt a := Real.sqrt_nonneg a
+  have hq : Real.sqrt a * Real.sqrt a = a := Real.mul_self_sqrt ha0
+  have hN : v.norm * v.norm = 1 + 2 * a := by
+    rw [norm_mul_self, V3.dot_def]
+    linear_combination hvx' + hvy' + hvz' + (1 - a) * hk
+  have hN1 : 1 ≤ v.norm := by
+    by_contra h
+    have h := not_le.mp h
+    nlinarith [norm_nonneg v]
+  have hkx : k.x * k.x ≤ 1 := by nlinarith [mul_self_nonneg k.y, mul_self_nonneg k.z]
+  have hky : k.y * k.y ≤ 1 := by nlinarith [mul_self_nonneg k.x, mul_self_nonneg k.z]
+  have hkz : k.z * k.z ≤ 1 := by nlinarith [mul_self_nonneg k.x, mul_self_nonneg k.y]
+  have cx := component_close a _ k.x v.x σ ha0 ha1 hq0 hq hkx hvx' hσ hsx
+  have cy := component_close a _ k.y v.y σ ha0 ha1 hq0 hq hky hvy' hσ hsy
+  have cz := component_close a _ k.z v.z σ ha0 ha1 hq0 hq hkz hvz' hσ hsz
+  have p1 : (1 : ℝ) = 1 ∨ (1 : ℝ) = -1 := Or.inl rfl
+  have m1 : (-1 : ℝ) = 1 ∨ (-1 : ℝ) = -1 := Or.inr rfl
+  unfold entriesWithin
+  refine ⟨?_, ?_, ?_, ?_, ?_, ?_, ?_, ?_, ?_⟩ <;> rod_unfold
+  · have h := diag_bound a s v.norm k.x v.x ha0 ha hs0 hs1 hsa hN1 hN hkx hvx'
+    convert h using 2; ring
+  · have h := offdiag_bound a s _ v.norm k.y k.x k.z v.y v.x v.z σ (-1) ha0 ha hs0 hs1 hsa hq0 hq hN1 hN hσ m1
+      cy cx cz (by linarith)
+    convert h using 2; ring
+  · have h := offdiag_bound a s _ v.norm k.z k.x k.y v.z v.x v.y σ 1 ha0 ha hs0 hs1 hsa hq0 hq hN1 hN hσ p1
+      cz cx cy (by linarith)
+    convert h using 2; ring
+  · have h := offdiag_bound a s _ v.norm k.x k.y k.z v.x v.y v.z σ 1 ha0 ha hs0 hs1 hsa hq0 hq hN1 hN hσ p1
+      cx cy cz (by linarith)
+    convert h using 2; ring
+  · have h := diag_bound a s v.norm k.y v.y ha0 ha hs0 hs1 hsa hN1 hN hky hvy'
+    convert h using 2; ring
+  · have h := offdiag_bound a s _ v.norm k.z k.y k.x v.z v.y v.x σ (-1) ha0 ha hs0 hs1 hsa hq0 hq hN1 hN hσ m1
+      cz cy cx (by linarith)
+    convert h using 2; ring
+  · have h := offdiag_bound a s _ v.norm k.x k.z k.y v.x v.z v.y σ (-1) ha0 ha hs0 hs1 hsa hq0 hq hN1 hN hσ m1
+      cx cz cy (by linarith)
+    convert h using 2; ring
+  · have h := offdiag_bound a s _ v.norm k.y k.z k.x v.y v.z v.x σ 1 ha0 ha hs0 hs1 hsa hq0 hq hN1 hN hσ p1
+      cy cz cx (by linarith)
+    convert h using 2; ring
+  · have h := diag_bound a s v.norm k.z v.z ha0 ha hs0 hs1 hsa hN1 hN hkz hvz'
+    convert h using 2; ring
+
+/-- the diagonal of `rot(k, θ)`: `(R_ii + 1)/2 = a + (1−a)kᵢ²` with `a = (1 + cos θ)/2`, which is not negative -/
+theorem formula_diag (c s : ℝ) (k : V3 ℝ) (hk : k.dot k = 1) (hc1 : -1 ≤ c) (hc2 : c ≤ 1) :
+    clip0 (((rodFormula c s k).r0.x + 1) * (1 / 2)) = (1 + c) / 2 + (1 - (1 + c) / 2) * (k.x * k.x) ∧
+    clip0 (((rodFormula c s k).r1.y + 1) * (1 / 2)) = (1 + c) / 2 + (1 - (1 + c) / 2) * (k.y * k.y) ∧
+    clip0 (((rodFormula c s k).r2.z + 1) * (1 / 2)) = (1 + c) / 2 + (1 - (1 + c) / 2) * (k.z * k.z) := by
+  have h1 : 0 ≤ (1 + c) / 2 := by linarith
+  have h2 : 0 ≤ 1 - (1 + c) / 2 := by linarith
+  refine ⟨?_, ?_, ?_⟩
+  · rw [show ((rodFormula c s k).r0.x + 1) * (1 / 2) = (1 + c) / 2 + (1 - (1 + c) / 2) * (k.x * k.x) by
+      rod_unfold; ring]
+    exact clip0_nonneg _ (add_nonneg h1 (mul_nonneg h2 (mul_self_nonneg _)))
+  · rw [show ((rodFormula c s k).r1.y + 1) * (1 / 2) = (1 + c) / 2 + (1 - (1 + c) / 2) * (k.y * k.y) by
+      rod_unfold; ring]
+    exact clip0_nonneg _ (add_nonneg h1 (mul_nonneg h2 (mul_self_nonneg _)))
+  · rw [show ((rodFormula c s k).r2.z + 1) * (1 / 2) = (1 + c) / 2 + (1 - (1 + c) / 2) * (k.z * k.z) by
+      rod_unfold; ring]
+    exact clip0_nonneg _ (add_nonneg h1 (mul_nonneg h2 (mul_self_nonneg _)))
 
 end C10
 
